@@ -102,18 +102,55 @@ var Nums = []string{
 
 // Num appends a number literal.
 func Num(t *rapid.T, b []byte) []byte {
-	switch intn(t, 4, "numkind") {
+	switch intn(t, 6, "numkind") {
 	case 0:
-		f := math.Float64frombits(rapid.Uint64().Draw(t, "fbits"))
+		bits := rapid.Uint64().Draw(t, "fbits")
+		if intn(t, 2, "uniform?") == 0 {
+			bits = mix64(bits) // rapid favours small integers, i.e. tiny subnormals: spread the bits
+		}
+		f := math.Float64frombits(bits)
 		if math.IsNaN(f) || math.IsInf(f, 0) {
 			f = 1.5
 		}
 		return strconv.AppendFloat(b, f, "eg"[intn(t, 2, "fmt")], -1, 64)
 	case 1:
 		return strconv.AppendInt(b, rapid.Int64().Draw(t, "int"), 10)
+	case 2:
+		// short decimal: up to 19 digits, optional point, exponent within +-45 (the exact and
+		// table-driven conversion paths and their limits), either sign
+		if intn(t, 2, "neg") == 0 {
+			b = append(b, '-')
+		}
+		nd := 1 + intn(t, 19, "ndig")
+		point := intn(t, nd+1, "point")
+		for i := 0; i < nd; i++ {
+			d := byte('0' + intn(t, 10, "dig"))
+			if i == 0 && nd > 1 && point != 1 && d == '0' {
+				d = '1' // no leading zero before further integer digits
+			}
+			b = append(b, d)
+			if i+1 == point && i+1 < nd {
+				b = append(b, '.')
+			}
+		}
+		if point == 0 { // all digits were meant as a fraction: 0.ddd
+			b = append(append(b[:len(b)-nd:len(b)-nd], '0', '.'), b[len(b)-nd:]...)
+		}
+		if intn(t, 3, "exp?") > 0 {
+			b = append(b, "eE"[intn(t, 2, "E")])
+			b = strconv.AppendInt(b, int64(intn(t, 91, "exp"))-45, 10)
+		}
+		return b
 	default:
 		return append(b, Nums[intn(t, len(Nums), "num")]...)
 	}
+}
+
+func mix64(x uint64) uint64 {
+	x += 0x9e3779b97f4a7c15
+	x = (x ^ (x >> 30)) * 0xbf58476d1ce4e5b9
+	x = (x ^ (x >> 27)) * 0x94d049bb133111eb
+	return x ^ (x >> 31)
 }
 
 // Scalar appends a scalar value.
@@ -263,7 +300,7 @@ func Mutate(t *rapid.T, b []byte) []byte {
 		}
 		return HostileBytes[intn(t, len(HostileBytes), "hb")]
 	}
-	switch intn(t, 9, "mutkind") {
+	switch intn(t, 10, "mutkind") {
 	case 0:
 		return b[:i]
 	case 1:
@@ -303,9 +340,36 @@ func Mutate(t *rapid.T, b []byte) []byte {
 		return append(b[:k:k], append(frag, b[k:]...)...)
 	case 7: // append a trailing byte
 		return append(b, pick())
+	case 8: // structural: duplicate, drop or follow a bracket / comma / colon with another one
+		return MutateStructure(t, b)
 	default: // an extra fraction / exponent tail after some number
 		return MutateNumberTail(t, b)
 	}
+}
+
+// MutateStructure picks one of the bytes [ ] { } , : of b (wherever it stands) and duplicates
+// it, removes it, or puts another structural byte right after it: near-valid documents whose
+// only fault is one bracket or separator too many or too few.
+func MutateStructure(t *rapid.T, b []byte) []byte {
+	var at []int
+	for i, c := range b {
+		switch c {
+		case '[', ']', '{', '}', ',', ':':
+			at = append(at, i)
+		}
+	}
+	if len(at) == 0 {
+		return b
+	}
+	i := at[intn(t, len(at), "structpos")]
+	switch intn(t, 3, "structkind") {
+	case 0:
+		return append(b[:i+1:i+1], b[i:]...)
+	case 1:
+		return append(b[:i:i], b[i+1:]...)
+	}
+	c := "[]{},:"[intn(t, 6, "structbyte")]
+	return append(b[:i+1:i+1], append([]byte{c}, b[i+1:]...)...)
 }
 
 // numTails are fraction / exponent tails; appended to a number that already has one they
@@ -423,6 +487,29 @@ type NestSpec struct {
 	Lead    string // prefix (whitespace)
 	Trail   string // suffix
 	Sibling bool   // put a scalar sibling before each deep member
+	// pretty-printing: after every opener and before every closer a newline and
+	// min(level*IndentStep, IndentCap) indentation bytes (IndentStep 0 = compact)
+	IndentStep int
+	IndentCap  int
+	IndentByte byte
+}
+
+func (n NestSpec) indent(sb *strings.Builder, level int) {
+	if n.IndentStep == 0 {
+		return
+	}
+	w := level * n.IndentStep
+	if n.IndentCap > 0 && w > n.IndentCap {
+		w = n.IndentCap
+	}
+	c := n.IndentByte
+	if c == 0 {
+		c = ' '
+	}
+	sb.WriteByte('\n')
+	for i := 0; i < w; i++ {
+		sb.WriteByte(c)
+	}
 }
 
 // Build renders the shape.
@@ -438,14 +525,21 @@ func (n NestSpec) Build() []byte {
 	for i := 0; i < n.Depth; i++ {
 		k := pat[i%len(pat)]
 		kinds[i] = k
+		inner := i+1 < n.Depth || n.Bottom != ""
 		if k == 'o' {
 			sb.WriteByte('{')
+			if inner {
+				n.indent(&sb, i+1)
+			}
 			if n.Sibling {
 				sb.WriteString(`"s":1,`)
 			}
 			sb.WriteString(`"k":`)
 		} else {
 			sb.WriteByte('[')
+			if inner {
+				n.indent(&sb, i+1)
+			}
 			if n.Sibling {
 				sb.WriteString(`1,`)
 			}
@@ -469,6 +563,7 @@ func (n NestSpec) Build() []byte {
 		sb.WriteString(s)
 	}
 	for i := n.Depth - 1; i >= 0 && n.Depth-1-i < n.Close; i-- {
+		n.indent(&sb, i)
 		if kinds[i] == 'o' {
 			sb.WriteByte('}')
 		} else {
@@ -477,6 +572,34 @@ func (n NestSpec) Build() []byte {
 	}
 	sb.WriteString(n.Trail)
 	return []byte(sb.String())
+}
+
+// DrawIndented draws a pretty-printed depth shape: indentation that grows with the nesting
+// level up to a cap, with depths on both sides of the cap (so lines are both wider and
+// narrower than the depth), fully or partly closed.
+func DrawIndented(t *rapid.T) NestSpec {
+	caps := []int{0, 8, 64, 255, 256, 500, 512, 1000, 1024, 2048}
+	n := NestSpec{Pattern: NestPatterns[intn(t, len(NestPatterns), "pattern")], IndentStep: []int{1, 1, 2, 4}[intn(t, 4, "step")],
+		IndentCap: caps[intn(t, len(caps), "cap")], IndentByte: " \t"[intn(t, 8, "tab?")/7]}
+	base := n.IndentCap
+	if base == 0 {
+		base = []int{3, 40, 700}[intn(t, 3, "base")]
+	}
+	n.Depth = []int{base/n.IndentStep + 1, base + 1, base + 2, 2*base + 1, base - 1, base / 2}[intn(t, 6, "depth")]
+	if n.Depth < 1 {
+		n.Depth = 1
+	}
+	for n.Depth > 8 && n.Depth*min(base, n.Depth*n.IndentStep) > 3<<20 {
+		n.Depth /= 2
+	}
+	n.Close = n.Depth
+	if intn(t, 5, "close") == 0 {
+		n.Close = n.Depth - 1
+	}
+	n.Bottom = []string{"", "1", `"x"`, "null", "[]", "{}"}[intn(t, 6, "bottom")]
+	n.Trail = []string{"", "\n", "x"}[intn(t, 3, "trail")]
+	n.Sibling = intn(t, 4, "sibling") == 0
+	return n
 }
 
 // NestPatterns are the array/object mixtures used for depth shapes.
